@@ -105,7 +105,8 @@ def make_action(w, sd_names, enames, pnames):
         return A.NoOp()
     if kind in (0, 1, 2, 3):
         cls = [A.ServiceScan, A.OSScan, A.SubnetScan, A.ProcessScan][kind]
-        return cls(target=t, cost=c)
+        from common import TWO53
+        return cls(target=t, cost=c, prob=pz / TWO53, req_access=req)
     from common import TWO53
     prob = pz / TWO53
     o = None if not os_ else osn[os_[0]]
@@ -147,8 +148,17 @@ class ImplRunner:
         return make_action(x[1], self.names, None, None)
 
     def stepout(self, next_state, obs_arr, rew, done, info, used):
-        return [state_wire(next_state.tensor, self.lay), mat_wire(obs_arr), fx(rew), int(bool(done)),
-                result_wire(info, self.names, self.addrs), used]
+        out = [state_wire(next_state.tensor, self.lay), mat_wire(obs_arr), fx(rew), int(bool(done)),
+               result_wire(info, self.names, self.addrs), used]
+        # the info dict is the caller's: what the caller does with it afterwards (here: empty every container in
+        # it, overwrite the scalars) must not reach the environment
+        if isinstance(info, dict):
+            for k_, v_ in list(info.items()):
+                if isinstance(v_, (dict, list, set)):
+                    v_.clear()
+                else:
+                    info[k_] = None
+        return out
 
     def run_op(self, op):
         env = self.env
@@ -186,6 +196,15 @@ class ImplRunner:
             if tag == 3:
                 if op[1] >= len(self.pool):
                     return [9]
+                if len(op) > 2 and op[2]:
+                    # the text renderers first (documented as displays): they must not change any answer
+                    import contextlib
+                    import io
+                    with contextlib.redirect_stdout(io.StringIO()):
+                        env.render_state(mode="human", state=self.pool[op[1]])
+                        env.render_state(mode="human")
+                        env.render_obs(mode="human")
+                        env.render_action(env.action_space.sample() if not self.modes[1] else 0)
                 return [3, int(bool(env.goal_reached(self.pool[op[1]])))]
             if tag == 4:
                 m = env.get_action_mask()
